@@ -64,7 +64,8 @@ class Contract:
     self.props = set(g("props", []))
     self.modifies = list(g("modifies", []))
     self.effects = list(g("effects", []))   # ghost updates, list of (ghost_name, expr)
-    self.hints = [Clause(c) for c in g("hints", [])]   # proved facts instantiated at function entry
+    self.hints = [Clause(c) for c in g("hints", [])]
+    self.return_hints = [Clause(c) for c in g("return_hints", [])]   # proof hints processed at every return site   # proved facts instantiated at function entry
     self.ghost = dict(g("ghost", {}))       # ghost variable name -> type (function-level ghost state)
     self.ghost_init = dict(g("ghost_init", {}))
     self.callsite_hints = dict(g("callsite_hints", {}))
